@@ -38,7 +38,7 @@ CONSTANTS
     FeatDiag,       \* TRUE: at most one pool of the three carries a feature other than "plain"
     NPods, PodArchs,
     Catalogs,       \* subset of 1..2
-    DaemonSets,     \* subset of 0..2
+    DaemonSets,     \* subset of 0..3
     MaxTypesSet,    \* scheduling.MaxInstanceTypes values (0 = default 600)
     Policies,       \* subset of {"Strict", "BestEffort"}
     Weak            \* "" | "*" (every rule of AllWeak in one run) | "c13" (C13Weak) | one of AllWeak
@@ -47,8 +47,8 @@ VARIABLES cfg, wk, pre, order, eff, left, oleft, claims, state, bad
 vars == <<cfg, wk, pre, order, eff, left, oleft, claims, state, bad>>
 
 AllWeak == {"order", "lowest", "ready", "chargeSum", "truncFirst", "rankDearest", "rankUnavailable", "truncMin", "ovhPerPod", "ovhNone",
-            "staleHash", "simKeys", "noStartup", "noRelax", "truncMinOrder"}
-C13Weak == {"truncMin", "truncMinOrder", "ovhPerPod", "ovhNone", "staleHash", "simKeys", "noStartup"}     \* the rules behind C13 (b)-(d)
+            "staleHash", "simKeys", "noStartup", "noRelax", "truncMinOrder", "ovhByName", "hashSecond", "noFinalize"}
+C13Weak == {"truncMin", "truncMinOrder", "ovhPerPod", "ovhNone", "staleHash", "simKeys", "noStartup", "ovhByName", "hashSecond", "noFinalize"}     \* the rules behind C13 (b)-(d)
 AllFeats == {"plain", "taint", "prefer", "limit", "limit16", "zoneA", "teamX", "min2", "archMin2", "notReady", "startup"}
 
 ----------------------------------------------------------------------------
@@ -85,7 +85,7 @@ Pool(n, w, f) ==
      taints |-> (CASE f = "taint" -> <<Dedicated>> [] f = "prefer" -> <<Soft>> [] OTHER -> <<>>),
      startup |-> (IF f = "startup" THEN <<Startup>> ELSE <<>>),
      limits |-> [cpu |-> (CASE f = "limit" -> 2000 [] f = "limit16" -> 16000 [] OTHER -> 0), mem |-> 0, nodes |-> -1],
-     types |-> <<>>, notReady |-> (f = "notReady"), deleting |-> FALSE,
+     types |-> <<>>, notReady |-> (f = "notReady"), deleting |-> FALSE, replicas |-> 0,
      hashAnn |-> (IF f = "startup" THEN "stale" ELSE "")]
 PoolNamesSeq == <<"P1", "P2", "P3">>
 
@@ -102,12 +102,16 @@ Arch(a, name) ==
       [] a = 5 -> [P0(name, 1500) EXCEPT !.terms = <<<<E("team", "In", <<"x">>)>>>>]  \* needs the team label
       [] a = 6 -> [P0(name, 500) EXCEPT !.terms = <<<<E("team", "In", <<"x">>)>>, <<E("zone", "In", <<"b">>)>>>>]   \* two OR-terms
       [] a = 7 -> [P0(name, 500) EXCEPT !.pref = <<[weight |-> 10, exprs |-> <<E("zone", "In", <<"b">>)>>]>>]         \* PREFERS zone b
+      [] a = 8 -> [P0(name, 500) EXCEPT !.sel = [arch |-> "arm64"]]                                                    \* arm64 only (T2)
 PodName(i) == "w" \o ToString(i)
 Batches == {s \in [1..NPods -> PodArchs] : \A i \in 1..(NPods - 1) : s[i] <= s[i + 1]}
 
 TolAll == [key |-> "", op |-> "Exists", value |-> "", effect |-> ""]
-DS(name, cpu, sel) == [name |-> name, ns |-> "kube-system", cpu |-> cpu, mem |-> 64, sel |-> sel, terms |-> <<>>, tol |-> <<TolAll>>, ports |-> <<>>]
-DaemonSet(i) == CASE i = 0 -> <<>> [] i = 1 -> <<DS("ds0", 200, <<>>)>> [] i = 2 -> <<DS("ds0", 200, <<>>), DS("ds1", 300, [it |-> "T2"])>>
+DS(name, ns, cpu, sel) == [name |-> name, ns |-> ns, cpu |-> cpu, mem |-> 64, sel |-> sel, terms |-> <<>>, tol |-> <<TolAll>>, ports |-> <<>>]
+\* 3: two daemonsets with the SAME NAME in different namespaces that split the catalog by architecture, the dearer one on arm64
+DaemonSet(i) == CASE i = 0 -> <<>> [] i = 1 -> <<DS("ds0", "kube-system", 200, <<>>)>>
+                  [] i = 2 -> <<DS("ds0", "kube-system", 200, <<>>), DS("ds1", "kube-system", 300, [it |-> "T2"])>>
+                  [] i = 3 -> <<DS("agent", "team-a", 100, [arch |-> "amd64"]), DS("agent", "team-b", 300, [arch |-> "arm64"])>>
 
 Scenario(wv, fs, cat, dm, batch, mt, pol) ==
     [name |-> "tlcw-" \o ToString(wv) \o "-" \o ToString(fs) \o "-" \o ToString(cat) \o "-" \o ToString(dm) \o "-" \o ToString(batch)
@@ -163,6 +167,12 @@ DaemonsFor(q, it) ==
     {d \in Range(cfg.ds) : /\ TaintsTolerated(d.tol, q.taints)
                            /\ LET dr == ReqsOfExprs(SelExprs(d.sel)) IN AllNonEmpty(MeetMap(tr, dr)) /\ ItCompat(it, dr)}
 \* pre (computed once per scenario, TLC does not memoise): pre.treqs[pool] = TemplateReqs, pre.ovh[pool][type] = summed requests of DaemonsFor
+\* the daemon overhead of a type is that of its overhead GROUP = the types with the same set of daemonsets (weak "ovhByName": the group
+\* is keyed by the daemonsets' NAMES only and keeps the overhead of its first type in provider order)
+NameSet(q, t) == {d.name : d \in DaemonsFor(q, TypeByName(cfg, t))}
+GroupType(q, t) ==
+    IF wk # "ovhByName" THEN t
+    ELSE cfg.types[MinOf({i \in DOMAIN cfg.types : NameSet(q, cfg.types[i].name) = NameSet(q, t)})].name
 Fits(q, it, reqs, P) ==
     LET need == AddRes(SumReq(P), pre.ovh[q.name][it.name]) IN
     \E i \in DOMAIN it.offerings :
@@ -201,13 +211,19 @@ Relevant(w, c) ==
         limit16 == \E q \in P : q.limits.cpu = 16000
         itMin == \E q \in P : \E r \in Range(q.reqs) : r.key = "it" /\ r.min > 0
         archMin == \E q \in P : \E r \in Range(q.reqs) : r.key = "arch" /\ r.min > 0
-        plain == ~notReady /\ ~startup /\ ~limit16 /\ ~itMin /\ ~archMin
+        labelled == \E q \in P : q.labels # <<>>
+        twins == \E i, j \in DOMAIN c.ds : i # j /\ c.ds[i].name = c.ds[j].name
+        armPod == \E p \in Range(c.pods) : "arch" \in DOMAIN p.sel
+        plain == ~notReady /\ ~startup /\ ~limit16 /\ ~itMin /\ ~archMin /\ ~labelled /\ ~twins /\ ~armPod
         mt == c.options.maxTypes
-    IN CASE w = "ready" -> notReady
-         [] w \in {"staleHash", "noStartup"} -> startup
-         [] w = "chargeSum" -> limit16
-         [] w = "truncMin" -> itMin /\ mt = 1
-         [] w = "truncMinOrder" -> archMin /\ mt = 2
+        only(x) == x /\ ~twins /\ ~armPod
+    IN CASE w = "ready" -> only(notReady)
+         [] w \in {"staleHash", "noStartup"} -> only(startup)
+         [] w = "chargeSum" -> only(limit16)
+         [] w = "truncMin" -> only(itMin) /\ mt = 1
+         [] w = "truncMinOrder" -> only(archMin) /\ mt = 2
+         [] w = "hashSecond" -> only(labelled) /\ mt = 2
+         [] w = "ovhByName" -> twins /\ armPod /\ ~notReady /\ ~startup /\ ~limit16 /\ ~itMin /\ ~archMin /\ ~labelled /\ mt = 2
          [] w \in {"truncFirst", "rankDearest"} -> plain /\ mt = 2
          [] w = "rankUnavailable" -> plain /\ mt = 1
          [] OTHER -> plain /\ mt = 2
@@ -221,7 +237,7 @@ Init ==
     /\ wk \in (IF Weak = "*" THEN AllWeak ELSE IF Weak = "c13" THEN C13Weak ELSE {Weak})
     /\ (Weak \in {"*", "c13"} => Relevant(wk, cfg))
     /\ pre = [treqs |-> [n \in {"P1", "P2", "P3"} |-> TemplateReqs(QOf(n))],
-              ovh |-> [n \in {"P1", "P2", "P3"} |-> [t \in {"T1", "T2", "T3"} |-> SumReq(DaemonsFor(QOf(n), TypeByName(cfg, t)))]]]
+              ovh |-> [n \in {"P1", "P2", "P3"} |-> [t \in {"T1", "T2", "T3"} |-> SumReq(DaemonsFor(QOf(n), TypeByName(cfg, GroupType(QOf(n), t))))]]]
     /\ order \in Orders
     /\ eff = [k \in Batch |-> PodByKey(cfg, k)]
     /\ left = [n \in {"P1", "P2", "P3"} |-> InitLeft(cfg, QOf(n))]
@@ -300,7 +316,7 @@ MinOverhead(c) == MinRes({pre.ovh[c.pool][n] : n \in Range(c.its)})
 MechRequests(c) ==
     LET pods == SumReq(OrigPods(c.pods))
         ov == MinOverhead(c) IN
-    IF wk = "ovhNone" THEN pods
+    IF wk \in {"ovhNone", "noFinalize"} THEN pods
     ELSE IF wk = "ovhPerPod" THEN [cpu |-> pods.cpu + Len(c.pods) * ov.cpu, mem |-> pods.mem + Len(c.pods) * ov.mem, pods |-> pods.pods + Len(c.pods) * ov.pods]
     ELSE AddRes(pods, ov)
 HashOf(q) == "hash-of-" \o q.name
@@ -310,9 +326,13 @@ Created(c) ==
         lbl == [k \in DOMAIN q.labels \cup {"pool"} |-> IF k = "pool" THEN q.name ELSE q.labels[k]]
         all == IF wk = "simKeys" THEN (NcKey :> "default") @@ ("karpenter.sh/registered" :> "true") ELSE (NcKey :> "default")
     IN [e |-> "Created", idx |-> c.idx, name |-> "nc", pool |-> q.name,
-        reqs |-> <<[key |-> "it", op |-> "In", vals |-> Emitted(c), min |-> -1]>>,
+        reqs |-> <<[key |-> "it", op |-> "In", vals |-> Emitted(c), min |-> -1]>>
+                 \o (IF wk = "noFinalize" THEN <<[key |-> "host", op |-> "In", vals |-> <<"hostname-placeholder-0001">>, min |-> -1]>> ELSE <<>>),
         requests |-> MechRequests(c), labels |-> lbl, allLabels |-> all,
-        annotations |-> (HashKey :> (IF wk = "staleHash" /\ q.hashAnn # "" THEN q.hashAnn ELSE HashOf(q))) @@ (HashVersionKey :> "v3"),
+        \* (weak "hashSecond": building a template pollutes the pool object's label map, every later template hashes the polluted object)
+        annotations |-> (HashKey :> (IF wk = "staleHash" /\ q.hashAnn # "" THEN q.hashAnn
+                                     ELSE IF wk = "hashSecond" /\ q.labels # <<>> /\ (\E j \in 1..c.idx : claims[j].pool = c.pool) THEN "hash-of-polluted-" \o q.name
+                                     ELSE HashOf(q))) @@ (HashVersionKey :> "v3"),
         taints |-> q.taints, startup |-> (IF wk = "noStartup" THEN <<>> ELSE q.startup),
         expHash |-> HashOf(q), expHashVersion |-> "v3", ncKey |-> NcKey, ncVal |-> "default"]
 Judge(c) ==
